@@ -3,6 +3,7 @@
 # (patch paths relative to /repo, e.g. from `git diff`). The scratch copy lives under /tmp and is removed afterwards.
 set -e
 P="$1"; ID="$2"; shift 2
+case "$P" in -|/*) ;; *) P="$(pwd)/$P";; esac
 W=$(mktemp -d /tmp/mutant-XXXXXX)
 cp -r /repo/src "$W/src"
 if [ "$P" != "-" ]; then (cd "$W" && patch -p1 -s < "$P"); fi
